@@ -119,7 +119,7 @@ def o_reverse(c):
         return f'reverse twice is not the identity: {annot.dump(rr)}'
     if not cc.same_mass(cc.mass_of(a), cc.mass_of(r)):
         return f'mass changed: {cc.mass_of(a)} -> {cc.mass_of(r)}'
-    if not cc.is_odd(a) and cc.roundtrips(a):
+    if cc.in_reparse_domain(a):
         if pt.reverse(a.serialize(), swap_terms=swap) != r.serialize():
             return 'peptacular.reverse(str) differs from the annotation method'
         if not cc.roundtrips(r):
@@ -155,7 +155,7 @@ def o_shift(c):
         return f'shift {k} then {-k} is not the identity on residues/globals/termini'
     if not cc.same_mass(cc.mass_of(a), cc.mass_of(r)):
         return f'mass changed: {cc.mass_of(a)} -> {cc.mass_of(r)}'
-    if not cc.is_odd(a) and cc.roundtrips(a):
+    if cc.in_reparse_domain(a):
         if pt.shift(a.serialize(), k) != r.serialize():
             return 'peptacular.shift(str) differs from the annotation method'
         if not wrapping(a, k) and not cc.roundtrips(r):
@@ -210,7 +210,7 @@ def o_shuffle(c):
         return 'global or terminal annotations changed'
     if not cc.same_mass(cc.mass_of(a), cc.mass_of(r)):
         return f'mass changed: {cc.mass_of(a)} -> {cc.mass_of(r)}'
-    if not cc.is_odd(a) and cc.roundtrips(a):
+    if cc.in_reparse_domain(a):
         if pt.shuffle(a.serialize(), seed) != r.serialize():
             return 'peptacular.shuffle(str) differs from the annotation method'
         if not cc.roundtrips(r):
@@ -235,7 +235,7 @@ def o_sort(c):
         return 'global or terminal annotations changed'
     if not cc.same_mass(cc.mass_of(a), cc.mass_of(r)):
         return f'mass changed: {cc.mass_of(a)} -> {cc.mass_of(r)}'
-    if not cc.is_odd(a) and cc.roundtrips(a):
+    if cc.in_reparse_domain(a):
         if pt.sort(a.serialize()) != r.serialize():
             return 'peptacular.sort(str) differs from the annotation method'
         if not cc.roundtrips(r):
@@ -296,7 +296,7 @@ def o_slice(c):
             y = a.slice(i + k, i + l)
             if cc.norm_dump(x) != cc.norm_dump(y):
                 return f'slice[{i},{j}) then [{k},{l}) = {annot.dump(x)} but slice[{i + k},{i + l}) = {annot.dump(y)}'
-    if ok and i < j and not cc.is_odd(a) and cc.roundtrips(a):
+    if ok and i < j and cc.in_reparse_domain(a):
         s = r.serialize()
         try:
             back = parse(s)
@@ -332,7 +332,7 @@ def o_split(c):
         expt = (t[0] if idx == 0 else 'N', t[1] if idx == n - 1 else 'N')
         if cc.term(p) != expt:
             return f'terminal mods of piece {idx}: {cc.term(p)} expected {expt}'
-    if not cc.is_odd(a) and cc.roundtrips(a):
+    if cc.in_reparse_domain(a):
         ss = [p.serialize() for p in ps]
         if pt.split(a.serialize()) != ss:
             return 'peptacular.split(str) differs from the annotation method'
@@ -496,7 +496,7 @@ def o_chain(c):
     for idx, st in enumerate(steps):
         prev = fresh_of(x)
         prev_s = None
-        if not cc.is_odd(prev) and cc.roundtrips(prev):
+        if cc.in_reparse_domain(prev):
             prev_s = prev.serialize()
         try:
             fr = apply_step(fresh_of(prev), st)
